@@ -64,7 +64,8 @@ func handleLeader(context *layoutContext, line *bo.LineBox, containingBlock cont
 		line.Width = cbWidth
 
 		// Add text boxes into the leader box
-		numberOfLeaders := int(line.Width.V()) / int(textBox.Width.V())
+		// float division : the width of the leader text may be less than 1
+		numberOfLeaders := int(line.Width.V() / textBox.Width.V())
 		positionX := line.PositionX + line.Width.V()
 		var children []Box
 		for i := 0; i < numberOfLeaders; i++ {
